@@ -510,3 +510,28 @@ def c10(run):
     run.assumptions += [BOUNDED, STD_GUARD + " (skipped on the two documented exceptions and on the known shape)",
                         "closures come from a fixed pure library acting on an injective scalarisation of the item",
                         "how often upstream closures run is not compared (the property speaks of produced values)"]
+
+
+# ------------------------------------------------------------------------------------------- C19
+@check("C19", rule="one program per (macro, variant, payload, argument form closure/function path) for the option:: and "
+                    "result:: macros (value and whether the fallback ran, std method as guard), per rebind pattern "
+                    "(arity 1..4 quick / 1..5 thorough, each position place / let / typed let / _) for try_rebind! and "
+                    "rebind_if_ok!, per key pair for min!/max!/_by/_by_key, plus try_! / try_opt!; non-trivial = payload "
+                    "reaches the closure or arity >= 2")
+def c19(run):
+    import progs
+    import gen_optres as go
+    q = run.tier == "quick"
+    out = vec("C19-OptRes.ndjson")
+    run.mc("MC_OptRes", "OptRes.quick.cfg" if q else "OptRes.thorough.cfg", env={"OUT": out},
+           need_actions=("ExpandOpt", "ExpandRes"), heap="4g", timeout=2000)
+    run.sample_file(out)
+    ps = progs.ProgSet(run, "C19-optres", prelude=go.PRELUDE)
+    for l in open(out):
+        for body, exp, rec in go.cases(json.loads(l)):
+            ps.add(body, exp, rec)
+    for body, exp, rec in go.try_cases():
+        ps.add(body, exp, rec)
+    ps.execute()
+    run.assumptions += ["closures / function paths come from a fixed library; the std method is evaluated next to every "
+                        "macro call and must agree with the specification (assert inside the program)"]
